@@ -131,6 +131,24 @@ def r15a(model, ctx):
               "normalised by adding the array length in both twins", f"{D}:{fv.lineno}")
 
 
+REF_ARRAY_GETITEM = """
+if isinstance(key, int):
+    if key not in range(-self._length, self._length):
+        raise KeyError(key)
+    if key < 0:
+        key += self._length
+    return Field(self._elem_shape, key * Shape.cast(self._elem_shape).width)
+raise TypeError()
+"""
+REF_ARRAY_GETITEM_MOD = """
+if isinstance(key, int):
+    if key not in range(-self._length, self._length):
+        raise KeyError(key)
+    return Field(self._elem_shape, (key % self._length) * Shape.cast(self._elem_shape).width)
+raise TypeError()
+"""
+
+
 def r15b(model, ctx):
     R = "R-15b"
     f = model.func(f"{D}::StructLayout.__init__")
@@ -154,9 +172,13 @@ def r15b(model, ctx):
         and "offset += Shape.cast(self._elem_shape).width" in t and "for index in range(self._length)" in t
     ctx.check(ok, R, "ArrayLayout.__iter__:placement", "element i at i * element width", "array elements must be yielded at the running "
               "offset advancing by the element width", f"{D}:{f.lineno}")
-    f = model.func(f"{D}::ArrayLayout.__getitem__")
-    ok = any(isinstance(s, ast.Return) and unparse(s.value) == "Field(self._elem_shape, key * Shape.cast(self._elem_shape).width)" for s in ast.walk(f))
-    ctx.check(ok, R, "ArrayLayout.__getitem__", "Field(elem_shape, key * element width)", "array element k must be at offset k * element width",
+    from ..engine import refsem
+    f, paths = refsem.method_paths(model, f"{D}::ArrayLayout.__getitem__", inline=False)
+    ok = refsem.compare(ctx, R, "ArrayLayout.__getitem__", f"{D}:{f.lineno}", "ArrayLayout.__getitem__", paths,
+                        [REF_ARRAY_GETITEM, REF_ARRAY_GETITEM_MOD], fact="Field(elem_shape, key * element width), negative keys wrap",
+                        why="Array element k must be at offset k * element width (negative k counts from the end); keys outside "
+                            "[-length, length) raise KeyError.")
+    ctx.check(True, R, "ArrayLayout.__getitem__:present", "Field(elem_shape, key * element width)", "array element k must be at offset k * element width",
               f"{D}:{f.lineno}")
     sizes = {"StructLayout": "max((field.offset + field.width for field in self._fields.values()), default=0)",
              "UnionLayout": "max((field.width for field in self._fields.values()), default=0)",
@@ -178,21 +200,39 @@ def r15c(model, ctx):
     f = model.func(f"{D}::Layout.const")
     loops = [s for s in f.body if isinstance(s, ast.For)]
     need(len(loops) == 1, "Layout.const: field loop not found")
-    paths = [p for p in run_paths(loops[0].body) if p.how == "fall"]
+    from ..engine import refsem
+    from ..engine.bitalg import Canon
+    from .evalspec import width_sign_hook
+    inline = refsem.inline_table(model, D, "Layout", exclude=("const",))
+    paths = [p for p in run_paths(list(loops[0].body), inline=inline, depth=3) if p.how == "fall"]
     ok = bool(paths)
+    okv = bool(paths)
+    cn = Canon(atom_hook=width_sign_hook)
+    FIELD = "self[key]"
+    VALUES = [f"hdl.Const.cast(hdl.Const(key_value, {FIELD}.shape))", f"hdl.Const(key_value, Shape.cast({FIELD}.shape))", "key_value"]
     for p in paths:
         v = p.env.get("int_value")
-        mm = c02.masked_merges(v) if v is not None else []
-        good = [b for b in mm if unparse(b[0]) == "int_value" and
-                pmatch("(1 << Shape.cast(self[key].shape).width) - 1 << self[key].offset", b[1]) is not None and
-                pmatch("_V_K.value << self[key].offset", b[2]) is not None]
-        ok = ok and bool(good)
+        if v is None:
+            ok = False
+            continue
+        hit = None
+        for V in VALUES:
+            ref = ast.parse(f"int_value & ~(((1 << Shape.cast({FIELD}.shape).width) - 1) << {FIELD}.offset) | "
+                            f"({V}.value << {FIELD}.offset) & (((1 << Shape.cast({FIELD}.shape).width) - 1) << {FIELD}.offset)", mode="eval").body
+            if cn(v) == cn(ref):
+                hit = V
+        ok = ok and hit is not None
+        # which conversion applies on this path: shape-castable fields go through Const(value, shape) and Const.cast; plain
+        # shapes through Const(value, Shape.cast(shape)) unless the value already is a constant
+        castable = any(pol and "ShapeCastable" in unparse(t) for t, pol in p.conds)
+        is_const = any((not pol) and unparse(t).startswith("not isinstance(") and "hdl.Const" in unparse(t) for t, pol in p.conds) or \
+            any(pol and unparse(t).startswith("isinstance(") and "hdl.Const" in unparse(t) and "ShapeCastable" not in unparse(t) for t, pol in p.conds)
+        want = VALUES[0] if castable else (VALUES[2] if is_const else VALUES[1])
+        okv = okv and hit == want
     ctx.check(ok, R, "Layout.const:merge", "int_value & ~mask | (field value << offset) & mask, mask = width-mask << offset of the same field",
               "Layout.const must merge each field with one mask built from that field's own width, shifted by that field's own "
               "offset, and shift the field's value by the same offset", f"{D}:{f.lineno}")
-    t = unparse(f)
-    ok = "key_value = hdl.Const.cast(hdl.Const(key_value, field.shape))" in t and "key_value = hdl.Const(key_value, cast_field_shape)" in t
-    ctx.check(ok, R, "Layout.const:field-value", "each field value is a constant of the field's shape", "field values must be converted "
+    ctx.check(okv, R, "Layout.const:field-value", "each field value is a constant of the field's shape", "field values must be converted "
               "to constants of the field's own shape", f"{D}:{f.lineno}")
     ok = isinstance(f.body[-1], ast.Return) and unparse(f.body[-1].value) == "Const(self, int_value)"
     ctx.check(ok, R, "Layout.const:result", "Const(self, int_value)", "Layout.const must return Const(self, int_value)", f"{D}:{f.lineno}")
